@@ -16,7 +16,7 @@ CLAIMED = {
    text="zcReader/zcWriter/ioReader/ioWriter run on the real LinkBuffer code against io.Reader/io.Writer stubs whose every count and error is a solver variable (short, zero, negative counts, data with error); two successive calls; stream compared with a rope reference; LinkBufferCap symbolic in one harness.",
    note=LB_NOTE + "; <= 3 source/sink calls per harness", ref="5.4"),
  "C18": dict(cat="model_checking", tech="bounded symbolic execution of go/ssa + SMT (z3)",
-   text="Round-robin pick arithmetic decided for every pool size 1..8 and every counter value below 2^62 by symbolic execution of the real roundRobinLB.Pick/randomLB.Pick; sequential reconfiguration histories (SetNumLoops grow/shrink/fail, SetLoadBalance, Close, Reset) of 1..4 steps with openPoll failing at any point: size, running pollers and balancer view checked after every step.",
+   text="Round-robin pick arithmetic decided for every pool size 1..8 and every counter value below 2^62 by symbolic execution of the real roundRobinLB.Pick; sequential reconfiguration histories (a, b, c loops in 1..4 with Pick in between, balancing mode switched or not): after each phase exactly the configured number of pollers run, surplus ones are closed, every Pick returns a running member, round-robin visits every member.",
    note="openPoll stubbed by a ghost poller that may fail; fastrand arbitrary in range; the concurrent first-use race (two goroutines in the first Pick) is NOT covered: its partial-order exploration does not converge (40 800 events) and is left out", ref="5.19"),
 }
 PO_NOTE = "sequential consistency; buffers summarised on their length counter; kernel (epoll_ctl, close, sendmsg), timers and runner.RunTask replaced by ghost stubs; poller slot recycling stubbed to the token protocol (C10 covers it); bounds (deliveries, closers, task instances, state revisits) in evidence; counterexamples are schedules over real source lines, replayed at the interpreter level only (no native schedule replay)"
@@ -50,21 +50,21 @@ CLAIMED.update({
    note=SEQ_NOTE + "; <= 4 iovecs, <= 3 sendmsg answers per flush; receive and send halves are checked separately (no socket in between)", ref="5.5"),
  "C08": dict(cat="model_checking", tech="partial-order (event/clock) SMT encoding of per-thread symbolic executions of go/ssa",
    text="flush/waitFlush/sendmsg/outputAck/onWrite (rw2r)/onHup/onClose executed symbolically per thread: writer with 1-2 Flush calls vs poller write-ready dispatches, peer drain, write-timer expiry, close; oracle: nil only when the kernel ghost took every byte, error only with close/timeout, writer never left blocked once space/close/expiry holds (quiescence).",
-   note=PO_NOTE + "; scenario 2 (timeout + two dispatches) is decided for safety only: its quiescence query exceeds the time-out and is reported as reduced bound", ref="5.10"),
+   note=PO_NOTE + "; byte counts in [1,2^20] in scenarios 0,1,3 and in [1,4] in scenarios 2,4,5 (measured: large ranges make those queries time out); timer durations are checked in the sequential deadline harness, not in the partial-order scenarios (there a timer may fire at any moment)", ref="5.10"),
  "C13": dict(cat="model_checking", tech="bounded symbolic execution of go/ssa + SMT with event injection at the stub boundaries",
-   text="server.OnRead/onAccept/OnHup/Close executed sequentially with the racing step (peer hang-up, Shutdown, accept failure incl. EMFILE back-off) injected at every stub boundary by a solver-chosen switch; table of tracked connections compared with the ghost set after every step; Close returns only when all are closed or ctx expired.",
+   text="server.OnRead/onAccept/OnHup/Close executed sequentially with the racing step (peer hang-up, Shutdown, accept failure incl. the EMFILE back-off ladder with 1..9 failures) injected at every stub boundary by a solver-chosen switch; table of tracked connections compared with the ghost set after every step; Close returns nil only with an empty table, closes every idle connection whatever the table order, never closes a busy one.",
    note=SEQ_NOTE + "; interleavings are limited to the injection points (kernel stubs, RunTask, callbacks), not instruction-level", ref="5.15"),
  "C14": dict(cat="model_checking", tech="bounded symbolic execution of go/ssa + SMT; connect/poll/getsockopt answers symbolic",
-   text="DialConnection/dialer/netFD.dial/connect executed on kernel stubs whose every answer (EINPROGRESS, EINTR, EISCONN, error from SO_ERROR, readiness, deadline expiry) is a solver variable: result is a usable registered connection or an error with the descriptor closed once and nothing registered; timeout errors report Timeout().",
+   text="DialTCP and the dialer front end (dialer.dialTCP with stubbed resolution) executed on kernel stubs whose every answer (EINPROGRESS, EINTR, EISCONN, SO_ERROR, readiness, hang-up, deadline expiry at any event incl. after establishment, one self-connect retry) is a solver variable: the result is a usable registered connection whose last kernel verdict was 'established', or an error with every descriptor closed once and nothing registered; timeout errors report Timeout().",
    note=SEQ_NOTE, ref="5.16"),
  "C15": dict(cat="model_checking", tech="bounded symbolic execution of go/ssa + SMT; descriptor ledger ghost at the syscall stubs",
    text="Every encoded path that opens a descriptor (openPoll with epoll_create/eventfd, sysSocket with its option/dial failure paths, ConvertListener/File() dup, listener.Close, and the dial/accept failure paths of the C13/C14 harnesses) runs against a descriptor ledger that may re-issue a closed number to a foreign owner: each owned descriptor closed exactly once on every success and error path, no close of a descriptor not owned.",
    note=SEQ_NOTE, ref="5.17"),
- "C17": dict(cat="model_checking", tech="bounded symbolic execution of go/ssa + SMT over coarse-grained schedules",
-   text="ShardQueue Add/foreach/deal/Close executed symbolically over solver-chosen scripts of <= 5 steps (Add | run the pending worker task | Close) on 1..3 shards: every getter added before Close is invoked exactly once, a Flush follows the last Append, Adds after Close invoke nothing, trigger counter back to zero.",
-   note="worker tasks run atomically between user calls: instruction-level interleavings of Add with the worker are NOT covered (the partial-order exploration of this slice/closure-heavy code does not converge); runner.RunTask stubbed by a task list", ref="5.18"),
+ "C17": dict(cat="model_checking", tech="bounded symbolic execution of go/ssa + SMT over scripts with call-granular injection of concurrent Add/Close",
+   text="ShardQueue Add/foreach/deal/Close executed symbolically over solver-chosen scripts (Add | run the pending worker | Close, <= 5 steps, 1..3 shards) and with a complete Add from another goroutine (<= 3) or the beginning of Close injected at every call-out of the worker (IsActive, getter begin/end, Append, Flush begin/end): every getter added before Close is invoked exactly once, a Flush follows the last Append, Close returns only after every earlier getter was invoked, Adds after Close invoke nothing, trigger and worker counters back to zero.",
+   note="interleavings are call-granular: instruction-level interleavings inside Add / the worker loop are NOT covered (the partial-order exploration of this slice/closure-heavy code does not converge); a Close that has to wait is suspended after its CAS and its wait loop is completed by the harness between tasks; runner.RunTask stubbed by a task list", ref="5.18"),
  "C19": dict(cat="model_checking", tech="partial-order SMT encoding: adjacency query over conflicting access pairs (one plain)",
-   text="On every partial-order harness of C05-C09 (teardown, hand-off, wake-up, flush, lifecycle order) the query 'two accesses to the same location from different threads, one a write, one not atomic, both executed and adjacent in the global order' is posed over all statically conflicting pairs; a locked/unlocked pair of guard harnesses (vacuity twin) shows the query sees a race and does not invent one.",
+   text="On every partial-order harness of C05-C09 (teardown, hand-off, wake-up with Release, flush, lifecycle order) and on a dedicated Release-vs-delivery harness the query 'two accesses to the same location from different threads, one a write, one not atomic, both executed and adjacent in the global order' is posed over all statically conflicting pairs; a locked/unlocked pair of guard harnesses (vacuity twin) shows the query sees a race and does not invent one.",
    note=PO_NOTE + "; buffer internals are summarised (the documented exemption); objects allocated by a thread and published later are snapshotted, so races on them are outside; server/dialer/ShardQueue/pool-reconfiguration scenarios are outside (no partial-order harness for them); no -race replay", ref="5.20"),
 })
 NA = {}
